@@ -191,6 +191,8 @@ def prio_project(kind):
         if tr.error is not None:
             return ["error", tr.error]
         allbuf = all(b for _, b in sc.meta["cfg"])
+        if sc.meta.get("fault") and not allbuf:
+            return SKIP     # see prio1_project: the faulted call is not determined by the script when interrupter ticks cause calls
         view = replay_driver(sc.meta, tr)
         if kind == "C01":
             return ["inflight", [len(v["held"]) + v["olen"] for v in view]]
@@ -362,10 +364,12 @@ PRIO_RULE = ("driver scripts executed inside a testing/synctest bubble against t
 
 
 # ------------------------------------------------------------------------------------------------ v1 (family 8)
-def enc_prio1(kind, H, ocap, cfg, ops, fixed=1):
+def enc_prio1(kind, H, ocap, cfg, ops, fixed=1, prefill=()):
     pc, os_ = [], []
     for p, ch in cfg:
         pc += [p, ch]
+    for ch in prefill:
+        os_ += [6, ch, 0, 0]
     for code, a, b, stl in ops:
         os_ += [code, a, b, 1 if stl else 0]
     return [8, kind, H, FUEL, ocap, fixed, len(pc)] + pc + [len(os_)] + os_
@@ -388,7 +392,11 @@ def gen_prio1_scenario(rng, tier, style=None, fault=False, stop=None):
         next_ch[0] += 1
         return next_ch[0] - 1
 
+    if style == "saturated":
+        ps0 = rng.sample([1, 2, 3, 4, 5, 7, 10], rng.choice([1, 2, 3, 3]))
     cfg = [(p, new_chan()) for p in ps0]
+    if style == "saturated":
+        return gen_prio1_saturated(rng, tier, kind, cfg)
     chan_of = dict(cfg)              # what the generator believes is registered
     had = dict(cfg)
     all_chans = [ch for _, ch in cfg]
@@ -439,15 +447,54 @@ def gen_prio1_scenario(rng, tier, style=None, fault=False, stop=None):
     ocap = rng.choice([1, 2, 4, max(H // 2, 1)])
     if fault:
         ops.insert(rng.randrange(0, len(ops) + 1), (rng.choice([5, 5, 7]), rng.choice([1, 2, -1, H]), 0, True))
-    if stop:
+    if stop and rng.random() < 0.35:
+        # Stop()/cancel while a graceful stop is pending: inputs closed (and mostly drained), delivered items unreleased
+        for ch in sorted(open_chans):
+            ops.append((2, ch, 0, True))
+        open_chans.clear()
+        ops.append((10, 0, 0, True))
+        for _ in range(rng.choice([0, 1, 2, nput + 1])):
+            ops.append((3, 0, 0, True))
+            if rng.random() < 0.5:
+                ops.append((4, rng.randrange(0, 8), 0, True))
+        ops.append((11 if stop == "stop" else 12, 0, 0, True))
+        ops.append((3, 0, 0, True))
+        ops.append((3, 0, 0, True))
+    elif stop:
         ops.insert(rng.randrange(0, len(ops) + 1), (11 if stop == "stop" else 12, 0, 0, True))
         ops.append((1, all_chans[0], 0, True) if all_chans and all_chans[0] in open_chans else (3, 0, 0, True))
         ops.append((3, 0, 0, True))
     else:
         # finale: close every channel, graceful stop, take/release until everything is through
+        early = style != "plain" and rng.random() < 0.35
+        if early:
+            # graceful stop requested while inputs are still open (and possibly after a drained input was removed):
+            # the discipline must go on serving the open inputs until they are closed
+            if len(chan_of) >= 2 and rng.random() < 0.6:
+                # first close one registered input, let it drain, and remove it
+                p = rng.choice(sorted(chan_of))
+                ch = chan_of.pop(p)
+                if ch in open_chans:
+                    open_chans.discard(ch)
+                    ops.append((2, ch, 0, True))
+                for _ in range(rng.choice([2, 4, 8])):
+                    ops.append((3, 0, 0, True))
+                    ops.append((4, 0, 0, True))
+                ops.append((9, p, 0, True))
+            ops.append((10, 0, 0, True))
+            for _ in range(rng.choice([1, 2, 4])):
+                ops.append((3, 0, 0, True))
+                ops.append((4, 0, 0, True))
+            for ch in sorted(open_chans):
+                if rng.random() < 0.7:
+                    for _ in range(rng.choice([1, 2])):
+                        ops.append((1, ch, 0, True))
+                        nput += 1
+                    ops.append((3, 0, 0, True))
         for ch in sorted(open_chans):
             ops.append((2, ch, 0, True))
-        ops.append((10, 0, 0, True))
+        if not early:
+            ops.append((10, 0, 0, True))
         for _ in range(nput + 3):
             ops.append((3, 0, 0, True))
             ops.append((4, 0, 0, True))
@@ -456,6 +503,46 @@ def gen_prio1_scenario(rng, tier, style=None, fault=False, stop=None):
     meta = {"divider": ["Fair", "Rate"][kind], "H": H, "ocap": ocap, "cfg": cfg, "ops": ops, "style": style, "fault": fault,
             "stop": stop, "nput": nput}
     return Scenario(enc, style + ("+fault" if fault else "") + ("+" + stop if stop else ""), meta, nontrivial=nput >= 2, version="v1")
+
+
+def gen_prio1_saturated(rng, tier, kind, cfg):
+    """every (buffered, capacity 3) input holds more items than can ever be taken, written before New by writers that block;
+    then takes and releases in arbitrary order and grouping (C05 for v1)"""
+    from .props.c18 import ref_nonfatal
+    ps = sorted(p for p, _ in cfg)
+    good = [h for h in [1, 2, 3, 4, 6, 8, 12, 20, 40] if ref_nonfatal(ps, kind, h)]
+    H = rng.choice(good[:5])
+    ocap = rng.choice([1, 2, 4, max(H // 2, 1), H])
+    nsteps = rng.choice([10, 25, 40]) if tier == "quick" else rng.choice([40, 80, 150])
+    ops = []
+    ntake = 0
+    for _ in range(nsteps):
+        r = rng.random()
+        if r < 0.5:
+            for _ in range(rng.choice([1, 2, 3, H])):
+                ops.append((3, 0, 0, True))
+                ntake += 1
+        else:
+            for _ in range(rng.choice([1, 1, 2, 3, H])):
+                ops.append((4, rng.randrange(0, 8), 0, True))
+    per = ntake + H + 6
+    prefill = []
+    for k in range(per):
+        for _, ch in cfg:
+            prefill.append(ch)
+    nput = len(prefill)
+    # finale: close, graceful stop, drain
+    for _, ch in cfg:
+        ops.append((2, ch, 0, True))
+    ops.append((10, 0, 0, True))
+    for _ in range(nput + 3):
+        ops.append((3, 0, 0, True))
+        ops.append((4, 0, 0, True))
+    ops.append((3, 0, 0, True))
+    enc = enc_prio1(kind, H, ocap, cfg, ops, prefill=prefill)
+    meta = {"divider": ["Fair", "Rate"][kind], "H": H, "ocap": ocap, "cfg": cfg, "ops": ops, "style": "saturated", "fault": False,
+            "stop": None, "nput": nput, "prefill": prefill, "nscript": len(ops) - (2 * (nput + 3) + 2 + len(cfg))}
+    return Scenario(enc, "saturated", meta, nontrivial=True, version="v1")
 
 
 class Prio1Trace:
@@ -503,6 +590,10 @@ def replay_driver1(meta, tr):
     put_chan = {}                 # item -> channel
     per_chan = {}                 # channel -> [items in put order]
     nxt = 1
+    for ch in meta.get("prefill", ()):
+        put_chan[nxt] = ch
+        per_chan.setdefault(ch, []).append(nxt)
+        nxt += 1
     closed = set()
     reg = dict((p, ch) for p, ch in meta["cfg"])      # priority -> channel, as far as the driver knows
     consumed_prev = {}
@@ -568,6 +659,10 @@ def prio1_project(kind):
         if getattr(tr, "ambiguous", False) or any(o[3] >= 2 for o in tr.ops):
             return SKIP
         allbuf = all(ch < 1000 for _, ch in sc.meta["cfg"]) and all(o[1] < 1000 for o in sc.meta["ops"] if o[0] == 8)
+        if sc.meta.get("fault") and not allbuf:
+            # with an unbuffered input the discipline goes on calling the divider at interrupter ticks while it waits: which of
+            # those calls is "the next one" when the fault is armed depends on the phase of the ticker (monitors still apply)
+            return SKIP
         ops = tr.ops
         if kind == "C01":
             return ["inflight", [(o[2], o[6]) for o in ops]]
@@ -577,6 +672,8 @@ def prio1_project(kind):
             return ["termination", [o[4] for o in ops], tr.done, tr.err]
         if kind == "C15":
             return ["calls", [sorted(o[7]) for o in ops] if allbuf else None, tr.done, tr.err, [(o[0], o[1]) for o in ops if (o[0], o[1]) != (0, 0)]]
+        if kind == "C05":
+            return ["vector", [(o[0], o[1]) for o in ops if (o[0], o[1]) != (0, 0)], [o[2] for o in ops], [o[6] for o in ops]]
         if kind == "C16":
             return ["stop", [(o[0], o[1]) for o in ops if (o[0], o[1]) != (0, 0)], [o[4] for o in ops], [o[2] for o in ops], tr.done, tr.err]
         if kind == "C17":
@@ -676,6 +773,20 @@ def monitor_prio1(kind):
                     if v["olen"] + len([t for t in view[:view.index(v) + 1] if t["taken"]]) > after["olen"] + len([t for t in view[:stopped_at + 1] if t["taken"]]):
                         fails.append("an item was written to the output after Stop()/cancel had completed")
                         break
+        if kind == "C05" and m["style"] == "saturated":
+            ps = sorted([p for p, _ in m["cfg"]], reverse=True)
+            shares = ref_shares(ps, 0 if m["divider"] == "Fair" else 1, H)
+            for i, v in enumerate(view[:m["nscript"]]):
+                if any(v["nput"].get(ch, 0) - v["consumed"].get(ch, 0) < 1 for _, ch in m["cfg"]):
+                    break        # cannot happen by construction of the scenario; the window ends if it does
+                cnt = {p: v["held"].count(p) for p in ps}
+                for p in ps:
+                    if cnt[p] > shares.get(p, 0):
+                        fails.append("op %d: %d items of priority %d in processing, its share is %d" % (i, cnt[p], p, shares.get(p, 0)))
+                if v["olen"] == 0 and any(cnt[p] != shares.get(p, 0) for p in ps):
+                    fails.append("op %d: quiet and output empty under saturation but in-flight %s differs from the shares %s" % (i, cnt, shares))
+                if fails:
+                    break
         if kind == "C15":
             if extra[1]:
                 fails.append("divider called with arguments violating its contract (%d calls)" % extra[1])
@@ -1047,7 +1158,9 @@ def shrink_prio1(sc):
     for ops in _chunks_removed(list(m["ops"])):
         meta = dict(m, ops=ops, nput=sum(1 for o in ops if o[0] == 1))
         kind = 0 if m["divider"] == "Fair" else 1
-        yield Scenario(enc_prio1(kind, m["H"], m["ocap"], m["cfg"], ops), sc.label, meta, nontrivial=True, version="v1")
+        if "nscript" in m:
+            meta["nscript"] = min(m["nscript"], len(ops))
+        yield Scenario(enc_prio1(kind, m["H"], m["ocap"], m["cfg"], ops, prefill=m.get("prefill", ())), sc.label, meta, nontrivial=True, version="v1")
 
 
 # ---------------------------------------------------------------- systematic injection at every position (thorough tier)
